@@ -22,3 +22,18 @@ func H_Open_Long_AtomCollateral() { h_c09.H_Open_Long_AtomCollateral() }
 //vrf:bound see h_c09.H_Open_Short
 //vrf:max-paths 3000
 func H_Open_Short() { h_c09.H_Open_Short() }
+
+//vrf:cover close-ok
+//vrf:bound see h_c09.H_Close_Long_SameBlock
+//vrf:max-paths 4000
+func H_Close_Long() { h_c09.H_Close_Long_SameBlock() }
+
+//vrf:cover close-ok
+//vrf:bound see h_c09.H_Close_Short_SameBlock
+//vrf:max-paths 4000
+func H_Close_Short() { h_c09.H_Close_Short_SameBlock() }
+
+//vrf:cover done
+//vrf:bound see h_c09.H_ClosePositions_Long_AtomCollateral
+//vrf:max-paths 8000
+func H_ClosePositions_Long() { h_c09.H_ClosePositions_Long_AtomCollateral() }
